@@ -145,6 +145,11 @@ var c07Words = [][]rune{
 	{0x1F600, 0x200D, 0xFE0F, 0x2764},     // emoji, ZWJ, VS16
 	{0xFF21, 0x2163, 0xFF41, 0x1400, 'A'}, // Latin / Canadian orientation exceptions
 	{0x0378, 0xE000, 0x10FFFF, 0xD800},    // unassigned, private use, noncharacter, surrogate
+	// scripts with a vertical orientation of their own (upright, some with sideways exceptions), and scripts written
+	// vertically that are sideways: Hangul syllables, conjoining and halfwidth jamo (the latter are the exceptions);
+	{0xD55C, 0xAE00, 0xAC00, 0xD7A3, 0x1100, 0x1161, 0x11A8, 0x3131, 0xFFA0, 0xFFA1, 0xFFBE, 0xFFC2, 0xFFDA, 0xFFDC, 0xFFBF, 0xFFDD},
+	{0x14400, 0x14401, 0x14646, 0x1D800, 0x1D801, 0x1DA8B, 0x1DA9B, 0x13000, 0x18B00}, // Anatolian / Egyptian hieroglyphs, SignWriting, Khitan
+	{0x1820, 0x1821, 0x1880, 0x180E, 0x202F, 0xA840, 0xA841, 0xA877, 0x11580, 0x11A50, 0x11A00, 0xA000}, // Mongolian, Phags-pa, Siddham, Soyombo, Zanabazar, Yi
 }
 var c07Brackets = []rune("()[]{}<>«»“”‘’⟨⟩「」（）")
 var c07Neutrals = []rune{' ', ' ', ',', '.', '!', '-', ':', '/', '\t', 0x00A0, 0x1680, 0x3000, 0x200B, 0x2028, '"', '\''}
@@ -330,6 +335,17 @@ func c07Gen(r *vh.Rand, tier string, n int, emit func(any)) {
 		}
 	}
 	rec2(nil)
+	// exhaustive vertical texts: length 1..2 over runes of the scripts with a vertical orientation of their own (and
+	// their exceptions), and of scripts that stay sideways, top-to-bottom without a fixed orientation
+	if tier != "search" {
+		vert := []rune{'a', '漢', 0xD55C, 0x1100, 0xFFA1, 0x30A2, 0xFF71, 0x2160, 0x14400, 0x1D800, 0x1820, 0xA840, 0x3001}
+		for _, x := range vert {
+			emit(c07Input{Call: c07Call{Text: []rune{x}, Start: 0, End: 1, Dir: 2, Fm: 1, Size: 640}})
+			for _, y := range vert {
+				emit(c07Input{Call: c07Call{Text: []rune{x, y}, Start: 0, End: 2, Dir: 2, Fm: 1, Size: 640}})
+			}
+		}
+	}
 	for i := 0; i < n; i++ {
 		maxLen := 8
 		switch {
@@ -422,6 +438,38 @@ func c07Sweep() (fails []string) {
 		}
 	}
 	return fails
+}
+
+// c07VertOrientation is the vertical orientation of rune r for script s read from the dumped table
+// uprightOrMixedScripts by a plain linear scan (first entry of the script; its exception ranges walked one by one;
+// a script that is not listed is sideways).  The observation of every rune comes from here, NOT from
+// unicodedata.LookupVerticalOrientation, which is compared with it on every rune of every case.
+var c07VOTable []ucd.VerifC20VO
+
+func c07VertOrientation(s language.Script, r rune) (sideways bool) {
+	if c07VOTable == nil {
+		c07VOTable = ucd.VerifC20UprightOrMixedScripts()
+	}
+	for _, v := range c07VOTable {
+		if v.Script != s {
+			continue
+		}
+		if v.Exceptions != nil {
+			x := int64(r)
+			for _, rg := range v.Exceptions.R16 {
+				if x >= int64(rg.Lo) && x <= int64(rg.Hi) && (x-int64(rg.Lo))%int64(rg.Stride) == 0 {
+					return !v.IsMainSideways
+				}
+			}
+			for _, rg := range v.Exceptions.R32 {
+				if x >= int64(rg.Lo) && x <= int64(rg.Hi) && (x-int64(rg.Lo))%int64(rg.Stride) == 0 {
+					return !v.IsMainSideways
+				}
+			}
+		}
+		return v.IsMainSideways
+	}
+	return true
 }
 
 func c07Run(o *vh.Out, inAny any) {
@@ -562,6 +610,7 @@ func c07Run(o *vh.Out, inAny any) {
 		keys = scripts
 	}
 	obs := make([]string, len(c.Text))
+	voFail := ""
 	for i, r := range c.Text {
 		f := 0
 		if shaping.VerifIgnoreFaceChange(r) {
@@ -577,7 +626,12 @@ func c07Run(o *vh.Out, inAny any) {
 			f |= 8
 		}
 		for j, s := range scripts {
-			if ucd.LookupVerticalOrientation(s).Orientation(r) {
+			want := c07VertOrientation(s, r)
+			if got := ucd.LookupVerticalOrientation(s).Orientation(r); got != want && voFail == "" {
+				voFail = fmt.Sprintf("LookupVerticalOrientation(%s).Orientation(U+%04X): sideways = %v, a linear scan of uprightOrMixedScripts gives %v (text %q)",
+					s, r, got, want, string(c.Text))
+			}
+			if want {
 				f |= 1 << (4 + j)
 			}
 		}
@@ -642,6 +696,9 @@ func c07Run(o *vh.Out, inAny any) {
 	}
 	for _, f := range sweepFails {
 		o.Fail(idx, "rune-class", f)
+	}
+	if voFail != "" {
+		o.Fail(idx, "class-lookup", voFail)
 	}
 }
 
